@@ -80,7 +80,10 @@ def main():
             except Violation as v:
                 rec.violation(case, f"corpus case {os.path.basename(path)}: {v.msg}", v.signature)
         # 2. the search
-        mod.run(args.tier, seed, rec)
+        try:
+            mod.run(args.tier, seed, rec)
+        except Violation as v:  # an oracle outside a recorder: still a finding, not a harness error
+            rec.violation({"note": "raised outside a recorded case; rerun the check to reproduce", "seed": seed, "tier": args.tier}, v.msg, v.signature)
         wall = timer()
         known = common.load_known(pid)
         real = []
